@@ -136,7 +136,7 @@ def parse_trace(script_path, impl_path):
             t = l.split(" ")
             if t[0] == "R":
                 results[t[1]] = (t[2], dict(x.split("=", 1) for x in t[3:] if "=" in x))
-            elif t[0] == "C":
+            elif t[0] in ("C", "CR"):
                 checks[t[1]] = t[2]
             elif t[0] == "Q":
                 qres[t[1]] = (t[2], t[3:])
@@ -167,7 +167,12 @@ def parse_trace(script_path, impl_path):
             blk = {"time": int(t[1]) * 10**9 + int(t[2]), "txs": [], "checks": pending_checks, "govs": [], "digest": None, "begin": None, "end": None}
             pending_checks = []
             tr.blocks.append(blk)
-        elif t[0] in ("TX", "CHECK") and "::" in t:
+        if t[0] == "RECHECK" and len(t) > 3:   # RECHECK <N> <n> <fields> :: <msgs>  — judged like a CHECK of the state in force
+            t = ["CHECK", t[1]] + t[3:]
+            recheck = True
+        else:
+            recheck = False
+        if t[0] in ("TX", "CHECK") and "::" in t:
             body = t[t.index("::") + 1:]
             kinds = [w for w in body if re.match(r"^(ent|wrk|bcn|str|bank|authz|feegrant)\.[a-z]+$", w)]
             hdr = dict(x.split("=", 1) for x in t[2:t.index("::")] if "=" in x)
@@ -177,6 +182,7 @@ def parse_trace(script_path, impl_path):
                 blk["txs"].append(rec)
             else:
                 rec["result"] = checks.get(t[1], "?")
+                rec["recheck"] = recheck
                 pending_checks.append(rec)
         elif t[0] == "GOVEXEC" and blk is not None:
             blk["govs"].append({"n": t[1], "body": t[2:], "result": govs.get(t[1], "?")})
@@ -201,6 +207,14 @@ def distinct_cases(tr):
         for g in b["govs"]:
             out.add(("gov", g["body"][0] if g["body"] else "", g["result"]))
     return out
+
+
+def fee_payer(tx):
+    """the account that pays the fee: the explicit payer= of the transaction line when set, else the first signer"""
+    p = tx["hdr"].get("payer", "-")
+    if p not in ("-", ""):
+        return p
+    return tx["hdr"].get("signers", "").split(",")[0]
 
 
 def names_in(tx):
@@ -347,7 +361,7 @@ def o_c05(tr):
         modtx_payers = set()
         for tx in b["txs"]:
             if any(k.startswith(("wrk.", "bcn.")) and not k.endswith("params") for k in tx["kinds"]):
-                sg = tx["hdr"].get("signers", "").split(",")[0]
+                sg = addr_id(fee_payer(tx))
                 modtx_payers.add(sg)
         for a in set(list(prev.locked) + list(d.locked)):
             before = prev.locked.get(a, (0, ""))[0]; after = d.locked.get(a, (0, ""))[0]
@@ -374,7 +388,7 @@ def o_c05_granter(tr):
                 continue
             if not any(k.startswith(("wrk.", "bcn.")) and not k.endswith("params") for k in tx["kinds"]):
                 continue
-            payer = tx["hdr"].get("signers", "").split(",")[0]
+            payer = addr_id(fee_payer(tx))
             if len([t for t in b["txs"] if payer in t["line"].split() or ("signers=" + payer) in t["line"]]) != 1:
                 continue    # only judge blocks in which this is the payer's only transaction
             lb = prev.locked.get(payer, (0, ""))[0]; la = d.locked.get(payer, (0, ""))[0]
@@ -398,8 +412,8 @@ def o_c05_amount(tr):
                 continue
             if not any(k.startswith(("wrk.", "bcn.")) and not k.endswith("params") for k in split_top_kinds(tx["body"])):
                 continue
-            payer = tx["hdr"].get("signers", "").split(",")[0]
-            mine = [t for t in b["txs"] if t["hdr"].get("signers", "").split(",")[0] == payer]
+            payer = addr_id(fee_payer(tx))
+            mine = [t for t in b["txs"] if payer in names_in(t)]
             if len(mine) != 1 or payer in completing or any("ent.params" in g["body"] for g in b["govs"]):
                 continue
             lb = prev.locked.get(payer, (0, ""))[0]; la = d.locked.get(payer, (0, ""))[0]
@@ -549,6 +563,14 @@ def o_c10(tr):
             yield {"oracle": "escrow=sum-deposits", "signature": "mismatch", "detail": "%s vs %s" % (d.bal.get("Mstr", {}), per)}
 
 
+def o_c06_plain(tr):
+    """the fee oracle without the two structural gaps recorded as known findings of C06 (mixed modules, nested operations):
+    for C16 — every fee check after a parameter update uses the new values"""
+    for v in o_c06(tr):
+        if v.get("signature") not in ("nested", "mixed"):
+            yield v
+
+
 def o_c10_fee(tr):
     """each release pays the fee collector floor(released x validator-fee rate) and the receiver the rest (rate = the one
     committed before the block; parameter changes take effect at the end of a block)"""
@@ -606,6 +628,34 @@ def o_c12(tr):
         for tx in b["txs"]:
             if tx["kinds"] and all(k.startswith("str.") for k in tx["kinds"]) and tx["result"] == "panic":
                 yield {"oracle": "stream-op-panics", "signature": ",".join(tx["kinds"]), "detail": tx["line"][:200]}
+
+
+def o_c12_live(tr):
+    """a claim by the receiver and a cancel by the sender of a stream that holds a positive deposit succeed (single-message
+    transactions whose stream nobody else touched earlier in the block, valid signature, no fee, no granter)"""
+    for prev, b, d in states(tr):
+        if prev is None:
+            continue
+        for tx in b["txs"]:
+            if tx["kinds"] not in (["str.claim"], ["str.cancel"]) or len(split_msgs(tx["body"])) != 1 or tx["result"] == "ok":
+                continue
+            h = tx["hdr"]
+            if h.get("sig") != "ok" or h.get("granter", "-") != "-" or h.get("fee", "-") != "-" or h.get("payer", "-") != "-":
+                continue
+            body = tx["body"]
+            if len(body) != 3:
+                continue
+            r, sn = addr_id(body[1]), addr_id(body[2])
+            st = prev.streams.get((r, sn))
+            who = r if tx["kinds"] == ["str.claim"] else sn
+            if st is None or st["deposit"][0] <= 0 or h.get("signers") != who or not re.match(r"^A\d+$", who) or who not in prev.exists:
+                continue
+            if tx["kinds"] == ["str.cancel"] and not st.get("cancellable", 1):
+                continue
+            earlier = [t for t in b["txs"] if t is not tx and int(t["n"]) < int(tx["n"]) and (r in names_in(t) or sn in names_in(t))]
+            if earlier:
+                continue
+            yield {"oracle": "stream-op-succeeds", "signature": tx["kinds"][0], "detail": "tx %s: %s on a stream holding %d fails (%s)" % (tx["n"], tx["kinds"][0], st["deposit"][0], tx["result"])}
 
 
 def o_c14(tr):
@@ -921,6 +971,39 @@ def _ent_denom_changed(digest):
     return pd is not None and any(b != pd for b in books)
 
 
+EXPORT_CAP = 20000
+
+
+def _cut_to_export_cap(digest):
+    """what the property promises after an import: per registration the newest 20,000 records, the two counters
+    (number in state, lowest / first in state) recomputed from them; everything else unchanged"""
+    keep = {}
+    for mod, tag in (("wrk", "D wrk.block"), ("bcn", "D bcn.ts")):
+        per = {}
+        for l in digest:
+            if l.startswith(tag + " "):
+                t = l.split()
+                per.setdefault(t[2], []).append(int(t[3]))
+        for i, ks in per.items():
+            if len(ks) > EXPORT_CAP:
+                keep[(mod, i)] = set(sorted(ks)[-EXPORT_CAP:])
+    if not keep:
+        return digest
+    out = []
+    for l in digest:
+        t = l.split()
+        if t[:2] == ["D", "wrk.block"] and ("wrk", t[2]) in keep and int(t[3]) not in keep[("wrk", t[2])]:
+            continue
+        if t[:2] == ["D", "bcn.ts"] and ("bcn", t[2]) in keep and int(t[3]) not in keep[("bcn", t[2])]:
+            continue
+        if t[:2] == ["D", "wrk.chain"] and ("wrk", t[2]) in keep:
+            k = keep[("wrk", t[2])]; t[10] = str(len(k)); t[11] = str(min(k)); l = " ".join(t)   # … last num lowest limit
+        if t[:2] == ["D", "bcn.beacon"] and ("bcn", t[2]) in keep:
+            k = keep[("bcn", t[2])]; t[8] = str(min(k)); t[9] = str(len(k)); l = " ".join(t)      # … last first num limit
+        out.append(l)
+    return out
+
+
 def o_c15(tr):
     """export -> InitChain on a fresh app: succeeds, no invariant broken, same observable state, identical second export"""
     il = tr.impl_lines
@@ -955,6 +1038,7 @@ def o_c15(tr):
                     if il[j].startswith("D "):
                         after.append(il[j])
                     j += 1
+                before = _cut_to_export_cap(before)
                 if before and after and before != after:
                     d = [(x, y) for x, y in zip(before, after) if x != y][:2]
                     yield {"oracle": "import-same-state", "signature": (d[0][0].split()[1] if d else "length"), "detail": str(d)[:300]}
@@ -983,7 +1067,7 @@ def o_invariants(tr):
 
 ORACLES = {
     "C02": [o_c02, o_invariants, o_c03], "C03": [o_c03], "C04": [o_c04, o_invariants], "C05": [o_c05, o_c05_granter, o_c05_amount], "C07": [o_c07], "C08": [o_c08],
-    "C09": [o_c09, o_owner_writes], "C10": [o_c10, o_c10_fee, o_invariants], "C11": [o_c11], "C12": [o_c12], "C14": [o_c14], "C16": [o_c16, o_c03], "C18": [o_c18],
+    "C09": [o_c09, o_owner_writes], "C10": [o_c10, o_c10_fee, o_invariants], "C11": [o_c11], "C12": [o_c12, o_c12_live], "C14": [o_c14], "C16": [o_c16, o_c03, o_c06_plain], "C18": [o_c18],
     "C13": [o_c13, o_owner_writes], "C17": [o_c17], "C20": [o_c20], "C15": [o_c15, o_invariants], "C06": [o_c06], "C01": [],
 }
 
@@ -1070,6 +1154,11 @@ def run_pure_oracles(pid, q, ans):
                     c, r = int(a[0]), int(a[1])
                     if not (0 <= c <= dep and c + r == dep):
                         out.append({"oracle": "claim-conserves-deposit", "signature": "claim", "detail": "claim %d + remaining %d of deposit %d: %s" % (c, r, dep, q), "request": q})
+    if pid == "C18" and len(t) == 3 and t[0] == "key" and t[1] in ("ent.locked", "ent.spent", "ent.wl") and re.match(r"^([0-9a-f]{2})*$", t[2]):
+        # an address-keyed enterprise key is the one-byte section prefix followed by the whole address: injective for every length
+        a = t[2]
+        if re.match(r"^([0-9a-f]{2})+$", ans) and (len(ans) != 2 + len(a) or ans[2:] != a):
+            out.append({"oracle": "address-key-layout", "signature": t[1], "detail": "key of address %s is %s: not prefix + address (two addresses with the same leading bytes would share it)" % (a or "(empty)", ans), "request": q})
     if pid == "C12" and t and t[0] in ("valfee", "dur") and ans == "panic":
         if t[0] == "valfee" and 0 <= int(t[1]) <= 10**18 and int(t[2]) < (1 << 255):
             out.append({"oracle": "arithmetic-panic", "signature": "valfee", "detail": q, "request": q})
